@@ -150,7 +150,7 @@ class Table:
                     return f"x{i}.final_target {'returns' if st == 'ok' else 'raises ' + st} although its chain {'does not reach' if st == 'ok' else 'reaches'} a real object"
         except StepLimit:
             return "evaluation does not terminate within the step budget (loop or unbounded recursion)"
-        except DepthLimit:
+        except (DepthLimit, RecursionError):
             return f"calls nest deeper than {it.max_depth} frames on a graph of {len(g)} names (unbounded recursion)"
         except Raised as r:
             return f"building or reading the graph raises {r.exc}"
@@ -270,7 +270,7 @@ class PackageTable:
                     return f"{path} is resolved (first link stored) yet its final target raises {outcome['final_target']}: the chain is partially resolved"
         except StepLimit:
             return f"{stage} does not terminate within the step budget"
-        except DepthLimit:
+        except (DepthLimit, RecursionError):
             return f"{stage} nests calls deeper than {it.max_depth} frames (unbounded recursion)"
         except Raised as r:
             return f"{stage} raises {r.exc}"
